@@ -181,6 +181,7 @@ type StructInfo struct {
 }
 
 type World struct {
+	subKinds map[string]int
 	strAssoc bool
 	structs     map[string]*StructInfo // by sort name
 	structOrder []string
@@ -559,4 +560,18 @@ func (w *World) declareStrOfArr() {
 	w.declare("strofarr", "(declare-fun strofarr ((Array Int Int) Int Int) Str)\n"+
 		"(assert (forall ((a (Array Int Int)) (o Int) (n Int)) (! (=> (>= n 0) (= (slen (strofarr a o n)) n)) :pattern ((strofarr a o n)))))\n"+
 		"(assert (forall ((a (Array Int Int)) (o Int) (n Int) (i Int)) (! (=> (and (<= 0 i) (< i n)) (= (sat (strofarr a o n) i) (select a (+ o i)))) :pattern ((sat (strofarr a o n) i)))))")
+}
+
+
+// subKindID numbers the embedded-field address functions (sub!T!f).
+func (w *World) subKindID(name string) int {
+	if w.subKinds == nil {
+		w.subKinds = map[string]int{}
+	}
+	if id, ok := w.subKinds[name]; ok {
+		return id
+	}
+	id := len(w.subKinds) + 1
+	w.subKinds[name] = id
+	return id
 }
